@@ -91,6 +91,29 @@ Inductive none_outcome : Type :=
 | NoneReturn          (* `return val` with val = None *)
 | NoneContinue.       (* val is not None: the rest of Attribute.validate runs *)
 
+(* ---- type dispatch of the converters: representative Python values, converter kinds, outcome ------------------------------ *)
+Inductive pytag : Type :=
+| TgInt | TgBool | TgFloat | TgStrNum (* '12' *) | TgStrText (* 'x' *) | TgBytes | TgDecimal | TgDate | TgDatetime | TgTime
+| TgTimedelta | TgUuid | TgList | TgOther.
+Inductive convkind : Type :=
+| CBool | CStr | CInt | CReal | CDecimal | CBlob | CDate | CTime | CTimedelta | CDatetime | CUuid.
+Inductive tyout : Type :=
+| TyAccept (as_tag : pytag)      (* accepted; the Python type of the value that validate goes on with / returns *)
+| TyReject (cls : nat).          (* refused with this exception class *)
+Definition pytag_eqb (a b : pytag) : bool :=
+  match a, b with
+  | TgInt, TgInt | TgBool, TgBool | TgFloat, TgFloat | TgStrNum, TgStrNum | TgStrText, TgStrText | TgBytes, TgBytes
+  | TgDecimal, TgDecimal | TgDate, TgDate | TgDatetime, TgDatetime | TgTime, TgTime | TgTimedelta, TgTimedelta
+  | TgUuid, TgUuid | TgList, TgList | TgOther, TgOther => true
+  | _, _ => false
+  end.
+Definition tyout_eqb (a b : tyout) : bool :=
+  match a, b with
+  | TyAccept x, TyAccept y => pytag_eqb x y
+  | TyReject x, TyReject y => Nat.eqb x y
+  | _, _ => false
+  end.
+
 (* ---- equality tests for the correspondence run --------------------------------------------------------------------- *)
 Definition optz_eqb (a b : option Z) : bool :=
   match a, b with Some x, Some y => x =? y | None, None => true | _, _ => false end.
